@@ -69,7 +69,9 @@ func cggmpCases(seed int64, count int) []kase {
 		}
 		ptxt := avail[(i/2)%len(avail)]
 		p, _ := keys.ParsePolicy(ptxt)
-		q := pickQuorum(p, rng, i%5 != 4, 3, 0)
+		// odd cases sign with a NON-minimal quorum: all three of 2-of-3, on the ideal threshold structure (i = 1, 5, ..)
+		// and on the non-ideal CNF one (i = 3, 7, ..)
+		q := pickQuorum(p, rng, i%2 == 0, 3, 0)
 		if q == nil {
 			continue
 		}
